@@ -322,6 +322,10 @@ pub fn run_check(id: &str, tier: Tier) -> i32 {
             if parts.iter().all(|p| p.failure.is_none()) {
                 parts.push(run_engine(&PairEngine { focus: Focus::Faults }, &ctx, scale(tier, 10_000, 100_000)));
             }
+            if parts.iter().all(|p| p.failure.is_none()) {
+                // the client's own GOAWAY (idle close) after pushed responses that arrived in any order
+                parts.push(run_engine(&PairEngine { focus: Focus::Coop }, &ctx, scale(tier, 16_000, 100_000)));
+            }
         }
         "C12" => {
             parts.push(run_engine(&WriteEngine, &ctx, scale(tier, 40_000, 1_000_000)));
